@@ -319,6 +319,8 @@ class Program:
             kind = res["kind"]
             if kind in ("item", "closure_once_shim", "fnptr_shim"):
                 key = res.get("key")
+                if not key and res.get("crate") in WORKSPACE and res.get("def") in self.bodies:
+                    key = res["def"]      # instance of a generic item inside a polymorphic body: use the generic body
                 if key and key in self.bodies:
                     return [("local", key)]
                 if key and key not in self.bodies and res["crate"] in WORKSPACE and kind == "item":
@@ -327,6 +329,14 @@ class Program:
             if kind == "virtual":
                 tr, m = f.get("trait"), f.get("method")
                 cands = self.trait_method_impls(tr, m)
+                # `<dyn P as T>::m`: only types that implement the principal trait P can be behind the pointer
+                mm = re.match(r"^<dyn ([^<> ]+)", f.get("full", ""))
+                if mm and cands:
+                    princ = mm.group(1)
+                    if princ != tr:
+                        have = {strip_lifetimes(i["self_s"]) for i in self.impls if i["trait"] == princ}
+                        if have:
+                            cands = [(p, i) for p, i in cands if strip_lifetimes(i["self_s"]) in have]
                 if cands:
                     return [("local", p) for p, _ in cands if p in self.bodies] or [("ext", res["full"], res["def"])]
                 return [("ext", res["full"], res["def"])]
